@@ -187,11 +187,329 @@ theorem lazy_refines_expanded (load : Oid → Option Listing) (hlo : ListingsOK 
     (lazy_lookups_answer_denote load hlo ks (expand load idx) hwe).1]
   exact List.map_congr_left (fun k _ => (expand_denote load hlo idx hw k).symm)
 
+/-! ### iteration and listing also keep the meaning -/
+
+/-- iterating under a prefix (which loads what it needs on the way) leaves the index well-formed and does not
+    change what it means at any key -/
+theorem iterItems_preserves (load : Oid → Option Listing) (hlo : ListingsOK load) (idx : LIndex) (hw : W1 idx) (pfx : Key) :
+    W1 (iterItems load idx pfx).1 ∧ ∀ k, denote load (iterItems load idx pfx).1 k = denote load idx k := by
+  have key : ∀ (i1 : LIndex), (W1 i1 ∧ ∀ k, denote load i1 k = denote load idx k) →
+      W1 (((i1.filter fun e => pfx.isPrefixOf e.1).map (·.1)).foldl (loadAt load) i1) ∧
+      ∀ k, denote load (((i1.filter fun e => pfx.isPrefixOf e.1).map (·.1)).foldl (loadAt load) i1) k = denote load idx k := by
+    intro i1 ⟨hw1, hd1⟩
+    obtain ⟨hw2, hd2⟩ := foldl_loadAt_preserves load hlo ((i1.filter fun e => pfx.isPrefixOf e.1).map (·.1)) i1 hw1
+    exact ⟨hw2, fun k => (hd2 k).trans (hd1 k)⟩
+  unfold iterItems
+  simp only
+  split
+  · split
+    · exact key idx ⟨hw, fun _ => rfl⟩
+    · exact key _ ⟨loadAt_W1 load hlo idx hw _, fun k => loadAt_denote load hlo idx hw _ k⟩
+  · exact key idx ⟨hw, fun _ => rfl⟩
+
+/-! no key is bound twice, before or after loading -/
+
+theorem keys_set (d : LIndex) (k : Key) (v : LEntry) :
+    AList.keys (d.set k v) = if k ∈ AList.keys d then AList.keys d else AList.keys d ++ [k] := by
+  induction d with
+  | nil => simp [AList.set, AList.keys]
+  | cons p r ih =>
+    obtain ⟨k', v'⟩ := p
+    simp only [AList.set]
+    by_cases h : k' = k
+    · subst h; simp [AList.keys]
+    · have hne : ¬ k = k' := fun e => h e.symm
+      simp only [h, if_false]
+      have ih' := ih
+      simp only [AList.keys] at ih' ⊢
+      simp only [List.map_cons, List.mem_cons, hne, false_or, ih']
+      split <;> simp_all
+
+theorem set_WF (d : LIndex) (hd : AList.WF d) (k : Key) (v : LEntry) : AList.WF (d.set k v) := by
+  unfold AList.WF at *
+  rw [keys_set]
+  split
+  · exact hd
+  · rename_i hn
+    exact List.nodup_append.mpr ⟨hd, by simp, by intro a ha b hb; simp at hb; subst hb; exact fun e => hn (e ▸ ha)⟩
+
+theorem setAll_WF (es : LIndex) : ∀ (idx : LIndex), AList.WF idx → AList.WF (setAll idx es) := by
+  induction es with
+  | nil => intro idx h; exact h
+  | cons c r ih => intro idx h; exact ih _ (set_WF idx h c.1 c.2)
+
+theorem loadAt_WF (load : Oid → Option Listing) (idx : LIndex) (h : AList.WF idx) (d : Key) : AList.WF (loadAt load idx d) := by
+  unfold loadAt
+  split
+  · split
+    · split
+      · exact set_WF _ (setAll_WF _ _ h) _ _
+      · exact h
+    · exact h
+  · exact h
+
+theorem foldl_loadAt_WF (load : Oid → Option Listing) : ∀ (ks : List Key) (idx : LIndex), AList.WF idx →
+    AList.WF (ks.foldl (loadAt load) idx) := by
+  intro ks
+  induction ks with
+  | nil => intro idx h; exact h
+  | cons k r ih => intro idx h; exact ih _ (loadAt_WF load idx h k)
+
+theorem iterItems_WF (load : Oid → Option Listing) (idx : LIndex) (h : AList.WF idx) (pfx : Key) :
+    AList.WF (iterItems load idx pfx).1 := by
+  unfold iterItems
+  simp only
+  split
+  · split
+    · exact foldl_loadAt_WF load _ _ h
+    · exact foldl_loadAt_WF load _ _ (loadAt_WF load idx h _)
+  · exact foldl_loadAt_WF load _ _ h
+
+/-- whatever an iteration under a prefix yields lies under that prefix, and its kind and hash are what the
+    original index means at that key (explicitly, or through the directory object the key lies in) -/
+theorem iterItems_sound (load : Oid → Option Listing) (hlo : ListingsOK load) (idx : LIndex) (hw : W1 idx)
+    (hwf : AList.WF idx) (pfx : Key) (p : Key × LEntry) (hp : p ∈ (iterItems load idx pfx).2) :
+    pfx <+: p.1 ∧ denote load idx p.1 = some (proj p.2) := by
+  have hpre := iterItems_preserves load hlo idx hw pfx
+  have hwf2 := iterItems_WF load idx hwf pfx
+  unfold iterItems at hp hwf2 hpre
+  simp only at hp hwf2 hpre
+  obtain ⟨hm, hpf⟩ := List.mem_filter.mp hp
+  refine ⟨List.isPrefixOf_iff_prefix.mp hpf, ?_⟩
+  rw [← hpre.2 p.1]
+  have := AList.lookup_of_mem _ hwf2 p.1 p.2 hm
+  simp [denote, this]
+
+/-- two iterations under the same prefix — whatever was loaded in between by other lookups — mean the same:
+    anything either yields is what the original index means there -/
+theorem iterItems_after_lookups (load : Oid → Option Listing) (hlo : ListingsOK load) (idx : LIndex) (hw : W1 idx)
+    (hwf : AList.WF idx) (ks : List Key) (pfx : Key) (p : Key × LEntry)
+    (hp : p ∈ (iterItems load (ks.foldl (loadAt load) idx) pfx).2) :
+    pfx <+: p.1 ∧ denote load idx p.1 = some (proj p.2) := by
+  obtain ⟨hw', hd'⟩ := foldl_loadAt_preserves load hlo ks idx hw
+  have := iterItems_sound load hlo _ hw' (foldl_loadAt_WF load ks idx hwf) pfx p hp
+  exact ⟨this.1, (hd' p.1) ▸ this.2⟩
+
+/-! ### iteration is complete: everything the index means under the prefix is yielded -/
+
+/-- `d` is bound to a directory entry that is not loaded yet and whose directory object is available -/
+def UL (load : Oid → Option Listing) (idx : LIndex) (d : Key) : Prop :=
+  ∃ e, idx.lookup d = some e ∧ (e.isdir && !e.loaded) = true ∧ (e.hash.bind load).isSome = true
+
+theorem child_not_unloaded (d : Key) (l : Listing) (c : Key × LEntry) (hc : c ∈ childrenOf d l) :
+    (c.2.isdir && !c.2.loaded) = false := by
+  unfold childrenOf at hc
+  rcases List.mem_append.mp hc with h | h
+  · obtain ⟨x, _, rfl⟩ := List.mem_map.mp h; rfl
+  · obtain ⟨x, _, rfl⟩ := List.mem_map.mp h; rfl
+
+/-- loading never creates an unloaded directory, and the one loaded is no longer unloaded -/
+theorem loadAt_UL (load : Oid → Option Listing) (idx : LIndex) (x d : Key) (h : UL load (loadAt load idx x) d) :
+    UL load idx d ∧ d ≠ x := by
+  cases hx : idx.lookup x with
+  | none =>
+    have he : loadAt load idx x = idx := by unfold loadAt; simp [hx]
+    rw [he] at h
+    refine ⟨h, ?_⟩
+    rintro rfl
+    obtain ⟨e, h1, _⟩ := h
+    rw [hx] at h1; cases h1
+  | some ex =>
+    by_cases hc : (ex.isdir && !ex.loaded) = true
+    · cases hl : ex.hash.bind load with
+      | none =>
+        have he : loadAt load idx x = idx := by unfold loadAt; simp [hx, hc, hl]
+        rw [he] at h
+        refine ⟨h, ?_⟩
+        rintro rfl
+        obtain ⟨e, h1, _, h3⟩ := h
+        rw [hx] at h1; cases h1
+        rw [hl] at h3; cases h3
+      | some l =>
+        rw [loadAt_eq load idx x ex l hx hc hl] at h
+        obtain ⟨e, h1, h2, h3⟩ := h
+        rw [lookup_loadedIdx] at h1
+        by_cases hxd : x = d
+        · simp only [hxd, if_true] at h1
+          cases h1
+          simp at h2
+        · simp only [hxd, if_false] at h1
+          cases hch : (setAll [] (childrenOf x l)).lookup d with
+          | some v =>
+            rw [hch] at h1
+            have hev : v = e := Option.some.inj h1
+            subst hev
+            have hm := lookup_setAll_nil_mem (childrenOf x l) d v hch
+            have := child_not_unloaded x l (d, v) hm
+            simp only at this
+            rw [this] at h2; cases h2
+          | none =>
+            rw [hch] at h1
+            exact ⟨⟨e, h1, h2, h3⟩, fun e' => hxd e'.symm⟩
+    · have he : loadAt load idx x = idx := by unfold loadAt; simp [hx, hc]
+      rw [he] at h
+      refine ⟨h, ?_⟩
+      rintro rfl
+      obtain ⟨e, h1, h2, _⟩ := h
+      rw [hx] at h1; cases h1
+      exact hc h2
+
+theorem foldl_loadAt_UL (load : Oid → Option Listing) : ∀ (ks : List Key) (idx : LIndex) (d : Key),
+    UL load (ks.foldl (loadAt load) idx) d → UL load idx d ∧ d ∉ ks := by
+  intro ks
+  induction ks with
+  | nil => intro idx d h; exact ⟨h, by simp⟩
+  | cons k r ih =>
+    intro idx d h
+    obtain ⟨h1, h2⟩ := ih (loadAt load idx k) d h
+    obtain ⟨h3, h4⟩ := loadAt_UL load idx k d h1
+    exact ⟨h3, by simp [h4, h2]⟩
+
+/-- what `below` answers comes from an unloaded, available directory object that is a prefix of the key -/
+theorem below_some (load : Oid → Option Listing) (idx : LIndex) (k : Key) (v : LEntry) (h : below load idx k = some v) :
+    ∃ d, d <+: k ∧ UL load idx d := by
+  unfold below at h
+  have hs := longestPrefix_spec idx k
+  cases hlp : longestPrefix idx k with
+  | none => rw [hlp] at h; cases h
+  | some d =>
+    rw [hlp] at h hs
+    simp only at h hs
+    cases hd : idx.lookup d with
+    | none => rw [hd] at h; cases h
+    | some e =>
+      rw [hd] at h
+      simp only at h
+      by_cases hc : (e.isdir && !e.loaded) = true
+      · rw [if_pos hc] at h
+        cases hl : e.hash.bind load with
+        | none => rw [hl] at h; cases h
+        | some l => exact ⟨d, hs.2.1, e, hd, hc, by simp [hl]⟩
+      · rw [if_neg hc] at h; cases h
+
+/-- **iteration is complete**: every key under the prefix at which the index means something — explicitly, or
+    through an unloaded directory object at, above or below the prefix — is yielded with exactly that meaning -/
+theorem iterItems_complete (load : Oid → Option Listing) (hlo : ListingsOK load) (idx : LIndex) (hw : W1 idx)
+    (pfx k : Key) (hk : pfx <+: k) (v : Bool × Option Oid) (hv : denote load idx k = some v) :
+    ∃ e, (k, e) ∈ (iterItems load idx pfx).2 ∧ proj e = v := by
+  have hpre := iterItems_preserves load hlo idx hw pfx
+  have hd2 := hpre.2 k
+  rw [hv] at hd2
+  -- the index after iterating: explicit at k, or through a directory object
+  cases hl : (iterItems load idx pfx).1.lookup k with
+  | some e =>
+    refine ⟨e, ?_, ?_⟩
+    · have hm := AList.mem_of_lookup _ k e hl
+      unfold iterItems at hm ⊢
+      simp only at hm ⊢
+      exact List.mem_filter.mpr ⟨hm, List.isPrefixOf_iff_prefix.mpr hk⟩
+    · simp only [denote, hl] at hd2
+      exact (Option.some.inj hd2)
+  | none =>
+    exfalso
+    simp only [denote, hl] at hd2
+    cases hb : below load (iterItems load idx pfx).1 k with
+    | none => rw [hb] at hd2; cases hd2
+    | some e' =>
+      obtain ⟨d, hdk, hul⟩ := below_some load _ k e' hb
+      -- d is still unloaded although available after the iteration: impossible
+      unfold iterItems at hul
+      simp only at hul
+      rcases Nat.le_total pfx.length d.length with hlen | hlen
+      · -- d at or below the prefix: it was in the list of keys loaded by the iteration
+        have hpd : pfx <+: d := List.prefix_of_prefix_length_le hk hdk hlen
+        obtain ⟨hul1, hnot⟩ := foldl_loadAt_UL load _ _ d hul
+        apply hnot
+        obtain ⟨e, he, _⟩ := hul1
+        have hm := AList.mem_of_lookup _ d e he
+        exact List.mem_map.mpr ⟨(d, e), List.mem_filter.mpr ⟨hm, List.isPrefixOf_iff_prefix.mpr hpd⟩, rfl⟩
+      · -- d above the prefix
+        have hdp : d <+: pfx := List.prefix_of_prefix_length_le hdk hk hlen
+        obtain ⟨hul1, _⟩ := foldl_loadAt_UL load _ _ d hul
+        by_cases hnil : pfx = []
+        · -- then d = [] = pfx: same as the first case
+          subst hnil
+          have hdn : d = [] := List.prefix_nil.mp hdp
+          subst hdn
+          obtain ⟨_, hnot⟩ := foldl_loadAt_UL load _ _ [] hul
+          apply hnot
+          obtain ⟨e, he, _⟩ := hul1
+          have hm := AList.mem_of_lookup _ [] e he
+          exact List.mem_map.mpr ⟨([], e), List.mem_filter.mpr ⟨hm, by simp⟩, rfl⟩
+        · have hs := longestPrefix_spec idx pfx
+          cases hlp : longestPrefix idx pfx with
+          | none =>
+            rw [hlp] at hs hul1
+            simp only at hs hul1
+            obtain ⟨e, he, _⟩ := hul1
+            exact hs d (by simp [he]) hdp
+          | some d0 =>
+            rw [hlp] at hs hul1
+            simp only [hnil, if_false] at hs hul1
+            obtain ⟨hul0, hne⟩ := loadAt_UL load idx d0 d hul1
+            obtain ⟨e, he, hc, _⟩ := hul0
+            exact hne (isLP_unique idx pfx d d0 (isLP_unloaded idx hw d pfx e he hc hdp) hs)
+
+/-- what an iteration yields, up to kind and hash: exactly the meaning of the index under the prefix -/
+theorem iterItems_exact (load : Oid → Option Listing) (hlo : ListingsOK load) (idx : LIndex) (hw : W1 idx)
+    (hwf : AList.WF idx) (pfx k : Key) (v : Bool × Option Oid) :
+    (∃ e, (k, e) ∈ (iterItems load idx pfx).2 ∧ proj e = v) ↔ (pfx <+: k ∧ denote load idx k = some v) := by
+  constructor
+  · rintro ⟨e, he, rfl⟩
+    exact iterItems_sound load hlo idx hw hwf pfx (k, e) he
+  · rintro ⟨hk, hv⟩
+    exact iterItems_complete load hlo idx hw pfx k hk v hv
+
+/-- **C17 (iteration, lazy = expanded).** Iterating under any prefix yields the same keys with the same kinds and
+    hashes on the lazy index as on the fully expanded one — and also after any lookups loaded parts of it. -/
+theorem iteration_lazy_eq_expanded (load : Oid → Option Listing) (hlo : ListingsOK load) (idx : LIndex) (hw : W1 idx)
+    (hwf : AList.WF idx) (ks : List Key) (pfx k : Key) (v : Bool × Option Oid) :
+    (∃ e, (k, e) ∈ (iterItems load (ks.foldl (loadAt load) idx) pfx).2 ∧ proj e = v) ↔
+    (∃ e, (k, e) ∈ (iterItems load (expand load idx) pfx).2 ∧ proj e = v) := by
+  obtain ⟨hw1, hd1⟩ := foldl_loadAt_preserves load hlo ks idx hw
+  obtain ⟨hw2, hd2⟩ := foldl_loadAt_preserves load hlo (idx.map (·.1)) idx hw
+  rw [iterItems_exact load hlo _ hw1 (foldl_loadAt_WF load ks idx hwf) pfx k v]
+  unfold expand
+  rw [iterItems_exact load hlo _ hw2 (foldl_loadAt_WF load _ idx hwf) pfx k v, hd1 k, hd2 k]
+
 /-! non-vacuity: an index with an unloaded directory object `d` listing `a` and `s/b` -/
 def exLoad : Oid → Option Listing := fun o => if o = "t.dir" then some [([['a']], "1"), ([['s'], ['b']], "2")] else none
 def exIdx : LIndex := [([['d']], { isdir := true, hash := some "t.dir", loaded := false }), ([['f']], { isdir := false, hash := some "9", loaded := true })]
 
 example : (runGets exLoad exIdx [[['d'], ['s'], ['b']], [['d'], ['s']], [['f']], [['d'], ['x']]]).2 =
     [some (false, some "2"), some (true, none), some (false, some "9"), none] := by decide
+
+/-- iterating under `d/s` (strictly inside the unloaded directory object) yields exactly `d/s` and `d/s/b` -/
+example : (iterItems exLoad exIdx [['d'], ['s']]).2.map (fun p => (p.1, proj p.2)) =
+    [([['d'], ['s'], ['b']], (false, some "2")), ([['d'], ['s']], (true, none))] := by decide
+
+example : AList.WF exIdx := by decide
+
+example : ListingsOK exLoad := by
+  intro o l h e he
+  unfold exLoad at h
+  split at h
+  · cases h
+    simp at he
+    rcases he with rfl | rfl <;> simp
+  · cases h
+
+example : W1 exIdx := by
+  intro d e hd hc q hq hdq
+  unfold exIdx at hd hq
+  simp only [AList.lookup_cons, AList.lookup_nil] at hd hq
+  split at hd
+  · rename_i h1
+    subst h1
+    split at hq
+    · rename_i h2; exact h2.symm
+    · split at hq
+      · rename_i h3
+        subst h3
+        simp at hdq
+      · simp at hq
+  · split at hd
+    · cases hd; simp at hc
+    · cases hd
 
 end DvcData.IndexLazy
